@@ -48,6 +48,16 @@ Theorem C01_writer_slots_checked :
   /\ entry_loops WriterOrder.writer_writeIATBatch = [iat_slots].
 Proof. exact writer_slots_ok. Qed.
 
+(* the record-type digit of a written line is fixed by the record's layout, and the type-code
+   columns of an addenda line are its TypeCode field: these parts of [dispatchb] hold by construction *)
+Theorem C01_line_digit : forall x c, kind_digit (r_kind x) = Some c -> rtype (render_rec all_layouts x) = c.
+Proof. exact line_digit. Qed.
+
+Theorem C01_line_type_code : forall x L, layout_of all_layouts (r_kind x) = Some L -> type_code_shape L = true ->
+  length (gets (r_val x) "TypeCode") = 2%nat ->
+  bsub (render_rec all_layouts x) (fst tag_cols) (snd tag_cols) = gets (r_val x) "TypeCode".
+Proof. exact line_type_code. Qed.
+
 (* write then read, any number of filler records (none, fewer, more than the writer's) *)
 Theorem C01_file_roundtrip : forall f k,
   all_file (rec_fitsb all_layouts) f = true -> dispatchb all_layouts f = true ->
@@ -146,3 +156,14 @@ Theorem C01_file_iat_detection_refuted :
   let f := retag_sec "IAT" ex_std in
   all_file (rec_fitsb LT) f = true /\ dispatchb LT f = false /\ read_file LT (write_file LT f) <> Some (parsed_file LT f).
 Proof. exact iat_detection_needed. Qed.
+
+(* known finding (company named IATCOR): the statement without [dispatchb] is refuted by a file whose
+   records meet every record-level hypothesis; C01_file_roundtrip is the theorem under the hypothesis
+   that excludes it *)
+Theorem C01_file_company_iatcor_refuted :
+  let f := rename_company "IATCOR" ex_std in
+  all_file (rec_fitsb LT) f = true /\ all_file (rec_stableb LT) f = true /\ dispatchb LT f = false
+  /\ iat_line (render_rec LT (bt_hdr (hd (mkBat a02 [] a02) (fl_batches f)))) = true
+  /\ read_file LT (write_file LT f) <> Some (parsed_file LT f)
+  /\ hyps (rename_company "IATCORP" ex_std) = true.
+Proof. exact company_iatcor_refuted. Qed.
